@@ -141,6 +141,23 @@ func c03Machine(c *Ctx, cfg c03Cfg) *Machine[*listInst] {
 		Name:     name,
 		MaxDepth: depth,
 		New: func() *listInst {
+			if cfg.Ctor == "spread-later" {
+				// the capacity is handed over as a spread slice that the caller keeps and uses again:
+				// the slice is the caller's, and the third stack made from it has the capacity it says
+				caps := []int{cfg.Cap}
+				newStackKind("LIST", caps...)
+				newStackKind("AND", caps...)
+				st := newStackKind(cfg.Kind, caps...)
+				if caps[0] != cfg.Cap {
+					st = stackage.Stack{} // reported below as a lost instance: the constructor wrote into the caller's slice
+				}
+				in := &listInst{s: st, m: &listModel{capk: cfg.Cap}}
+				if cfg.FIFO {
+					in.s.SetFIFO(true)
+					in.m.fifo = true
+				}
+				return in
+			}
 			if cfg.Ctor == "" {
 				in := cfg.build()
 				if cfg.Policy {
@@ -232,6 +249,9 @@ func c03Configs(c *Ctx) []c03Cfg {
 					out = append(out, c03Cfg{listCfg{k, fifo, cp, false, false, cp, true, false, true, 0}, "", false, false})
 					out = append(out, c03Cfg{listCfg{k, fifo, cp, false, false, cp, false, false, false, 0}, "", false, true})
 				}
+			}
+			for _, cp := range caps[:2] {
+				out = append(out, c03Cfg{listCfg{Kind: k, FIFO: fifo, Cap: cp, MaxL: cp}, "spread-later", false, false})
 			}
 			if k == "LIST" {
 				// capacities around and beyond any preallocation constant, almost full at the start
